@@ -92,7 +92,7 @@ func r18_2(c *Ctx, r *Report) {
 		construct := uniq(seen, fmt.Sprintf("%s: member set %q", fname(s.fn), s.lit))
 		r.check(len(bad) == 0, rule, construct, c.pos(s.ins.Pos()), fmt.Sprintf("tokens outside GAN/ZHI/JIA_ZI: %v (such a member can never match, so those days fall through to another branch)", bad))
 	}
-	r.floor(rule, 8)
+	r.floor(rule, 3)
 }
 
 var canon28 = strings.Split("角 亢 氐 房 心 尾 箕 斗 牛 女 虚 危 室 壁 奎 娄 胃 昴 毕 觜 参 井 鬼 柳 星 张 翼 轸", " ")
